@@ -1,6 +1,7 @@
 // Package c15: file-based loading maps names to definition files faithfully (property C15).
 //
-// op (model + implementation):
+// ops: `tree` (model + implementation) and `@forked` (implementation only; the same arguments, every lookup made under a
+// fresh child loader of the context's loader — what a forked context has), plus `tn` / `ep` (path.go):
 //
 //	tree <mods> <files> <via> <lookups>
 //
@@ -474,6 +475,7 @@ type world struct {
 	mods   map[string]px.ModuleLoader
 	dep    px.Loader
 	via    px.Loader
+	forked bool
 }
 
 func build(root string, s spec) *world {
@@ -542,7 +544,11 @@ func (w *world) run(c px.Context, l lookup) (o outcome) {
 		}
 		sort.Strings(o.reads)
 	}()
-	c.DoWithLoader(w.via, func() {
+	ctxLoader := w.via
+	if w.forked {
+		ctxLoader = px.NewParentedLoader(w.via)
+	}
+	c.DoWithLoader(ctxLoader, func() {
 		switch l.op {
 		case "load":
 			v, ok := px.Load(c, px.NewTypedName(px.NsType, l.name))
@@ -553,10 +559,10 @@ func (w *world) run(c px.Context, l lookup) (o outcome) {
 			k, n := typeKind(v)
 			o = outcome{kind: "found", tkind: k, name: n}
 		case "has":
-			o = outcome{kind: "has", has: w.via.HasEntry(px.NewTypedName(px.NsType, l.name))}
+			o = outcome{kind: "has", has: ctxLoader.HasEntry(px.NewTypedName(px.NsType, l.name))}
 		case "discover":
 			static := px.StaticLoader()
-			tns := w.via.Discover(c, func(tn px.TypedName) bool { return tn.Namespace() == px.NsType && !static.HasEntry(tn) })
+			tns := ctxLoader.Discover(c, func(tn px.TypedName) bool { return tn.Namespace() == px.NsType && !static.HasEntry(tn) })
 			ns := make([]string, len(tns))
 			for i, tn := range tns {
 				ns[i] = strings.ToLower(tn.Name())
@@ -568,8 +574,13 @@ func (w *world) run(c px.Context, l lookup) (o outcome) {
 }
 
 func exec(c px.Context, op string, args []sx.Sexp) core.Result {
+	forked := false
 	switch op {
 	case "tree":
+	case "forked":
+		// implementation-only (`@C15 forked …`): every lookup runs under a fresh px.NewParentedLoader(via), the loader a
+		// forked context (pcore.DoWithParent, px.Fork) has
+		forked = true
 	case "tn", "ep":
 		return execPath(op, args)
 	default:
@@ -595,6 +606,7 @@ func exec(c px.Context, op string, args []sx.Sexp) core.Result {
 	}
 	loader.VerifResetReads()
 	w := build(root, s)
+	w.forked = forked
 	outs := make([]outcome, len(s.lookups))
 	items := make([]string, len(s.lookups))
 	for i, l := range s.lookups {
@@ -611,6 +623,16 @@ func exec(c px.Context, op string, args []sx.Sexp) core.Result {
 	for _, p := range paths {
 		out += fmt.Sprintf(" %s=%d", p, total[p])
 	}
-	return judge(s, outs, total, out)
+	res := judge(s, outs, total, out)
+	if forked {
+		// the same oracle; a definition that is lost with the fork that loaded it gets its own class
+		for _, c := range []string{"missing-with-file", "case-sensitive", "unstable"} {
+			if strings.HasPrefix(res.Pred, "FAIL "+c+" ") {
+				res.Pred = "FAIL forked-lost-definition " + res.Pred[len("FAIL "):]
+			}
+		}
+		res.Tags = append(res.Tags, "forked")
+	}
+	return res
 }
 
